@@ -244,13 +244,12 @@ def run_slice(job: dict) -> dict:
                 C["remote_run_failed_" + rt["outcome"]["kind"]] += 1
                 res["aborted"] += 1
             else:
-                seq = seqs_from_remote(rt)
-                other = {"seq": {sid: [tuple(x) for x in seq.get(sid, [])] for sid in ref["seq"]},
-                         "labels": {sid: [] for sid in ref["seq"]}, "sub": set(),
-                         "desc": {"config": cfg, "sched": "remote processes, real sleeps"},
-                         "steps": sum(len(v) for v in seq.values())}
-                # remote run has no C03 analysis: take the reference's tags only
-                consider(other, {"scn": scn, "ref_cfg": ref_cfg, "cfg": cfg, "sched": "remote"})
+                # the remote run gets the same C03 analysis (events merged by the monotonic clock), so that
+                # the open sub-time finding can be classified per step in this run as well
+                from ..remotelab import merged_trace
+                other = summarize(scn_v, merged_trace(rt), {"config": cfg, "sched": "remote processes, real sleeps"})
+                if other is not None:
+                    consider(other, {"scn": scn, "ref_cfg": ref_cfg, "cfg": cfg, "sched": "remote"})
         if len(orders) >= 2:
             C["scenarios_with_2plus_distinct_orders"] += 1
         C["distinct_orders_total"] += len(orders)
@@ -276,10 +275,9 @@ def replay(rep: dict) -> List[dict]:
     scn_v = dict(scn, config=r["cfg"])
     if r["sched"] == "remote":
         from ..remotelab import run_remote, seqs_from_remote
+        from ..remotelab import merged_trace
         rt = run_remote(scn_v, max_sleep=0.004)
-        seq = seqs_from_remote(rt)
-        other = {"seq": {sid: [tuple(x) for x in seq.get(sid, [])] for sid in ref["seq"]},
-                 "labels": {sid: [] for sid in ref["seq"]}, "sub": set(), "desc": "remote", "steps": 0}
+        other = summarize(scn_v, merged_trace(rt), "remote") if rt["outcome"]["kind"] == "ok" else None
     else:
         other = summarize(scn_v, run_case(scn_v, dict(r["sched"])), {"config": r["cfg"], "sched": "replay"})
     if ref is not None and other is None and r["sched"] != "remote":
